@@ -104,6 +104,14 @@ Theorem C14_matcher_set_is_conjunction : forall ms p, mset_match ms p = Yes <-> 
 Proof. exact mset_yes_iff. Qed.
 
 
+Theorem C14_not_is_negated_or : forall sets p, sets <> [] ->
+  (not_match sets p = Yes <-> any_match sets p = No) /\ (not_match sets p = No <-> any_match sets p = Yes).
+Proof. exact not_is_negated_any. Qed.
+Theorem C14_anymatch_yes_iff : forall sets p,
+  any_match_go sets p = Yes <->
+  exists a ms b, sets = a ++ ms :: b /\ Forall (fun ms' => mset_match ms' p = No) a /\ mset_match ms p = Yes.
+Proof. exact any_go_yes_iff. Qed.
+
 (* ---- the boolean references the engine computes in Go (and the correspondence check recomputes
    from the abstract message carried in KRef cases) are these references ---- *)
 Theorem C14_socks4_engine_reference : forall cfg m,
@@ -162,3 +170,5 @@ Print Assumptions C14_socks4_engine_reference.
 Print Assumptions C14_socks5_engine_reference.
 Print Assumptions C14_postgres_engine_reference.
 Print Assumptions C14_xmpp_rfc6120_complete_partial.
+Print Assumptions C14_not_is_negated_or.
+Print Assumptions C14_anymatch_yes_iff.
